@@ -223,6 +223,40 @@ func runC14(c *Ctx) {
 			}
 		}
 
+		// ---------------- the same *WarriorData added twice, edited in place in between ----------------
+		{
+			bc := genBattle(r, 2, false)
+			if len(bc.Warriors) == 2 && len(bc.Warriors[0].Code) > 0 {
+				w0 := bc.Warriors[0]
+				w1 := &BWarrior{Code: make([]mars.Insn, len(w0.Code)), Start: w0.Start, Off: bc.Warriors[1].Off}
+				for i := range w1.Code {
+					w1.Code[i] = livelyInsn(r, bc.M)
+				}
+				bc.Warriors[1] = w1
+				shared := &g.WarriorData{Name: "first", Code: toGCode(w0.Code), Start: w0.Start}
+				if s, err := g.NewSimulator(bc.config()); err == nil {
+					var ws []g.Warrior
+					try(func() {
+						a, _ := s.AddWarrior(shared)
+						copy(shared.Code, toGCode(w1.Code)) // same length, same Start: only the content changes
+						shared.Name = "second"
+						b, _ := s.AddWarrior(shared)
+						ws = []g.Warrior{a, b}
+						s.SpawnWarrior(0, g.Address(w0.Off))
+						s.SpawnWarrior(1, g.Address(w1.Off))
+					})
+					ref := bc.newRef(0)
+					if len(ws) == 2 {
+						if ok, d := compareBattle(s, ws, ref, 0); !ok {
+							c.Violate("C14:alias:second-add-of-same-pointer", "the same *WarriorData was added twice with an in-place edit in between; each warrior must be the data as it was when added: "+d, bc.describe())
+							return
+						}
+						c.Inc("same_pointer_added_twice_checks")
+					}
+				}
+			}
+		}
+
 		// ---------------- cross-simulator history probe (sequential) ----------------
 		// a simulator with a LARGE process limit is run and Reset, then one with a SMALL limit runs a
 		// splitting warrior: its outcome must be the reference outcome, whatever the first one left behind
@@ -277,7 +311,33 @@ func runC14(c *Ctx) {
 			switch x := r.Intn(15); {
 			case x < 2:
 				j.kind = jkAsmValid
-				j.text, _ = tg.validProgram(r, asm.D94, ac)
+				// every job assembles under its own configuration: same core size, other Length / Distance / Processes
+				jc := ac
+				jc.Length = []int{ac.Length, 20, 50, 100}[r.Intn(4)]
+				jc.Distance = []int{0, 7, 25, 100, jc.Length}[r.Intn(5)]
+				if jc.Length > jc.CoreSize {
+					jc.Length = jc.CoreSize
+				}
+				if jc.Length+jc.Distance > jc.CoreSize {
+					jc.Distance = 0
+				}
+				jc.Processes = []int{ac.Processes, 1, 64}[r.Intn(3)]
+				j.cfg = gcfg(jc, g.ICWS94)
+				var p *asm.Prog
+				for t := 0; t < 5; t++ {
+					p = asm.GenProg(r, asm.GenOpts{Cfg: jc, MaxLines: 6, UseLabels: true, UseEqus: r.Bool(), UseConsts: true})
+					if mn, e := p.Meaning(); e == nil {
+						wd := g.WarriorData{Code: toGCode(mn.Code), Start: mn.Start}
+						j.expect = sumWarrior(wd, nil)
+						break
+					}
+					p = nil
+				}
+				if p != nil {
+					j.text = asm.Render(p, randStyle(r, progNames(p)))
+				} else {
+					j.text, j.cfg = "mov 0, 1\n", gc
+				}
 			case x < 4:
 				j.kind = jkAsmInvalid
 				j.text, _ = tg.hostile(int64(1000+r.Intn(100000)), r, asm.D94, ac)
@@ -400,6 +460,16 @@ func runC14(c *Ctx) {
 		}
 		for k, j := range jobs {
 			c.Inc("jobs_" + jobKindNames[j.kind])
+			if j.kind == jkAsmValid && j.expect != "" {
+				c.Inc("assemblies_compared_with_meaning")
+				for _, got := range []string{j.seq, results[k]} {
+					if got != j.expect {
+						c.Violate("C14:assembly-depends-on-history", fmt.Sprintf("assembly job %d gave %q; by construction (and whatever was assembled before or next to it) it is %q", k, got, j.expect),
+							map[string]interface{}{"text": describeText(j.text), "config": j.cfg})
+						return
+					}
+				}
+			}
 			if j.kind == jkBattle {
 				c.Inc("battles_compared_with_reference")
 				if j.reset {
